@@ -68,7 +68,7 @@ inline void fatal_cb(const char *cls,const std::string &msg){
 }
 
 // run one plan in a forked child of this (pristine) process
-inline RunResult run_forked(Engine &e,const J &plan,int timeout_s = 120){
+inline RunResult run_forked(Engine &e,const J &plan,int timeout_s = 40){   // a run that spins outside the simulator (never reaching an intercepted call) is killed and reported as a real-time hang
 	int pfd[2]; if(pipe(pfd) != 0) { RunResult r; r.fail("machinery","pipe failed"); return r; }
 	std::string errf = g_scratch + "/stderr." + std::to_string(getpid());
 	fflush(stdout); fflush(stderr);
